@@ -71,6 +71,17 @@ class Choice(Seq):
     pass
 
 
+class All(Seq):
+    """xs:all: every member once, in any order (generated like a sequence)"""
+
+
+class Note:
+    """an xs:annotation placed among the particles of a content model (declares nothing)"""
+
+    def __init__(self, text):
+        self.text = text
+
+
 class Attr:
     def __init__(self, name, type='xs:string', use=None, ref=None):
         self.name, self.type, self.use, self.ref = name, type, use, ref
@@ -157,9 +168,11 @@ class Schema:
             put(a, 'minOccurs', p.min)
             put(a, 'maxOccurs', p.max)
             return E(x + 'any', a)
+        if isinstance(p, Note):
+            return self._doc(p.text)[0]
         put(a, 'minOccurs', p.min)
         put(a, 'maxOccurs', p.max)
-        return E(x + ('choice' if isinstance(p, Choice) else 'sequence'), a, [self._particle(q) for q in p.items])
+        return E(x + ('choice' if isinstance(p, Choice) else 'all' if isinstance(p, All) else 'sequence'), a, [self._particle(q) for q in p.items])
 
     def _attr(self, at):
         x = self.xs + ':'
